@@ -85,9 +85,9 @@ class Sim:
             return
         for g in self.objs.values():
             if kind == "reveal":
-                g.reveal_value(self.v[op[1]], repo.coal(op[1]))
+                g.reveal_value(self.v[op[1]], repo.coal_listed(op[1]))
             elif kind == "unreveal":
-                g.unreveal_value(repo.coal(op[1]))
+                g.unreveal_value(repo.coal_listed(op[1]))
             elif kind == "reset":
                 repo.set_knowledge(g, self.v, op[1])
             elif kind == "set_many":
